@@ -582,8 +582,43 @@ def unresolved_touch(f, after_stmt, recv_names):
                 if isinstance(fn, ast.Attribute) and dotted(fn) and dotted(fn).split(".")[0] in ("logger", "bytecode", "logging"):
                     continue
                 if mentions or recv_is:
+                    # a uniquely resolvable repository method that never touches reload() on that argument is harmless
+                    if isinstance(fn, ast.Attribute) and mentions and not recv_is and _never_reloads_arg(f, n, names):
+                        continue
                     return n
     return None
+
+
+def _never_reloads_arg(f, call, names, depth=0):
+    """the callee is the unique method of that name in the module and, for the parameter the object is bound to, contains
+    no .reload() on it and does not hand it on (except to callees for which the same holds)"""
+    m = f.module
+    defs = [g for c in m.classes.values() for nm, g in c.methods.items() if nm == call.func.attr]
+    if len(defs) != 1 or depth > 2:
+        return False
+    h = defs[0]
+    hp = h.params()
+    decos = {d.id if isinstance(d, ast.Name) else getattr(d, "attr", None) for d in h.node.decorator_list}
+    off = 0 if "staticmethod" in decos else 1
+    bound = {hp[i + off] for i, a in enumerate(call.args) if isinstance(a, ast.Name) and a.id in names and i + off < len(hp)}
+    if not bound:
+        return False
+    bound = _aliases(h, bound)
+    for n in walk_no_nested(h.node):
+        if isinstance(n, ast.Call):
+            fn = n.func
+            if isinstance(fn, ast.Attribute) and isinstance(fn.value, ast.Name) and fn.value.id in bound:
+                if fn.attr == "reload" or not fn.attr.startswith("get_"):
+                    return False
+                continue
+            passed = any(isinstance(a, ast.Name) and a.id in bound for a in list(n.args) + [k.value for k in n.keywords])
+            if passed:
+                if isinstance(fn, ast.Name) and fn.id in ("setattr", "delattr", "getattr", "isinstance", "hasattr", "str", "repr", "len"):
+                    continue
+                if isinstance(fn, ast.Attribute) and _never_reloads_arg(h, n, bound, depth + 1):
+                    continue
+                return False
+    return True
 
 
 def check_pairing(E):
